@@ -66,6 +66,60 @@ def elem_of(v):
     return v
 
 
+def truncated_push(out, eng, pr, f, enc, extra, k):
+    oid = "T.truncated_push_%d_immediates" % k
+    ex = eng.explorer(extra=extra, max_visits=60)
+    width = z3.BitVec("push_width", 8)          # n of PUSHn, k < n <= 32
+    arr = z3.Store(z3.K(z3.BitVecSort(64), z3.BitVecVal(0, 8)), z3.BitVecVal(0, 64), z3.BitVecVal(0x5f, 8) + width)
+    imm = [z3.BitVec("imm%d" % i, 8) for i in range(k)]
+    for i, b in enumerate(imm):
+        arr = z3.Store(arr, z3.BitVecVal(i + 1, 64), b)
+    pre = [z3.UGT(width, k), z3.ULE(width, 32)]
+
+    def body(ctx):
+        ctx.assume(z3.And(pre))
+        bo = Obj("bytes", "[u8]", name="tbytes", arr=arr, len=z3.BitVecVal(k + 1, 64))
+        r = ctx.run_fn(f, [Ref(Cell(bo, "bytes"), ())])
+        return r, ctx
+    try:
+        paths = ex.explore(body)
+    except Unsupported as e:
+        out.obligation(oid, "mirsmt", "inconclusive", 0, witness=False, note=str(e))
+        out.inconc("%s: %s" % (oid, e))
+        return
+
+    def post(p):
+        if p.kind != "return":
+            return z3.BoolVal(False)
+        r, ctx = p.ret
+        if variant(r) != "Ok":
+            return z3.BoolVal(False)
+        v = r.fields[0]
+        if not (isinstance(v, Obj) and v.kind == "vec"):
+            return z3.BoolVal(False)
+        try:
+            entries = enc.entries(ctx, v.pushed)
+        except Unsupported:
+            return z3.BoolVal(False)
+        if len(entries) != k + 1:
+            return z3.BoolVal(False)
+        conds = []
+        want = [z3.BitVecVal(0x5f, 8) + width] + imm
+        for e, w in zip(entries, want):
+            # each byte of the cut-short push behaves as INVALID carrying its own value: never a live instruction
+            conds.append(z3.BoolVal(e[0] == "byte" and e[2] == "Invalid"))
+            if e[0] == "byte":
+                conds.append(e[1] == w)
+        return z3.And(conds)
+
+    def replay(p, model):
+        bs = [0x5f + ev(model, width)] + [ev(model, b) for b in imm]
+        return native.scenario(out, "truncated_push", {"hex": bytes(bs).hex()})
+    verdict(out, pr, oid, paths, post, pre=pre, kinds=("return", "panic", "unreachable", "loop-bound"), replay=replay,
+            key="truncated-push-bytes-become-instructions",
+            what="a PUSHn followed by only %d of its n immediate bytes disassembles to INVALID entries carrying those bytes" % k)
+
+
 class Enc:
     """Encoding of appended instruction entries, using the real `as_byte` bodies from the MIR."""
 
@@ -196,7 +250,10 @@ def run(out, tier):
             return z3.BoolVal(False)
         return z3.And(invariant(st["ops"].base_len, st["off"], st["size"], st["rem"], st["last"], st["start"], st["pbl"], st["pb"]),
                       st["count"] == st["off"], st["ops"].base_len == 0)
+    def replay_init(p, model):
+        return native.scenario(out, "disassemble_roundtrip", {"zeros": min(ev(model, L), 1 << 20)})
     verdict(out, pr, "D1.prologue_establishes_invariant", paths, post_init, pre=[z3.ULT(L, z3.BitVecVal(1 << 32, 64))], kinds=("return", "cut"),
+            replay=replay_init, key="disassemble-rejects-or-garbles-input",
             what="the empty input is the only one rejected up front; otherwise the loop is entered in a state satisfying I")
 
     # ---------------- one byte step / epilogue from an arbitrary invariant state --------------------------------
@@ -228,8 +285,12 @@ def run(out, tier):
     try:
         paths = ex.explore(body_step)
     except Unsupported as e:
-        out.obligation("D2.step", "mirsmt", "inconclusive", 0, witness=False, note=str(e))
+        out.obligation("D2.step_and_epilogue", "mirsmt", "inconclusive", 0, witness=False, note=str(e))
         out.inconc("D2: %s" % e)
+        paths = None
+    if paths is None:
+        for k in ((0, 1, 2) if tier == "quick" else (0, 1, 2, 3, 5)):
+            truncated_push(out, eng, pr, f, enc, extra, k)
         return
     out.extra["step_paths"] = len(paths)
     out.extra["step_explore_s"] = round(time.time() - t0, 1)
@@ -296,6 +357,11 @@ def run(out, tier):
         return z3.And(conds) if conds else z3.BoolVal(True)
     verdict(out, pr, "J2.jumpdest_only_at_instruction_boundary", paths, post_j2, pre=pre, kinds=("cut", "return"),
             what="an entry is JUMPDEST exactly when its byte is 0x5b and it is not a push immediate (immediates are Nop entries)")
+
+    # ---------------- T: whole runs on a PUSH cut short by the end of the code (bounded, complements D2) ------------
+    # input = [PUSHn, b1..bk] with n > k >= 0 symbolic immediates: every entry must be Invalid with its own byte
+    for k in ((0, 1, 2) if tier == "quick" else (0, 1, 2, 3, 5)):
+        truncated_push(out, eng, pr, f, enc, extra, k)
 
     # ---------------- PushN contract (Engine A) -------------------------------------------------------------------
     names = catalog.PUSHN_QUICK if tier == "quick" else catalog.PUSHN_ALL
